@@ -18,7 +18,7 @@ ASSUMPTIONS = ["numpy / CPython behave as documented", "grid shapes are passed a
                "lattice_dim=2 only"]
 NSHARDS = {"quick": 16, "thorough": 16}
 THRESHOLDS = {
-    "quick": {"repotests:ambient:gen:gen_dfs": 50, "c01:gen_dfs": 200, "c01:gen_prim": 200, "c01:gen_wilson": 200, "c01:gen_percolation": 200,
+    "quick": {"repotests:ambient:gen:gen_dfs?repotests:runs": 50, "c01:gen_dfs": 200, "c01:gen_prim": 200, "c01:gen_wilson": 200, "c01:gen_percolation": 200,
               "c01:gen_dfs_percolation": 200, "c01:oblong": 1, "c01:one-by-n": 1, "c01:p0": 1, "c01:p1": 1,
               "c01:spanning-checked:dfs": 100, "c01:spanning-checked:wilson": 100, "c01:consumed-stream": 50,
               "hits:gen_dfs": 1, "hits:gen_wilson": 1, "hits:gen_percolation": 1, "hits:gen_dfs_percolation": 1,
